@@ -5,7 +5,7 @@
    stage except the two header-staging ones, stop_hint s <= number of frame bytes still to come. *)
 From Coq Require Import ZArith List Lia Bool.
 From LZ4V Require Import Spec.BlockSpec Spec.XXH32 Spec.FrameSpec Gen.Consts Model.FrameD.
-From LZ4V Require Import Proofs.FrameDHeader Proofs.FrameDProofs Proofs.FrameDSound Proofs.FrameDBisim Proofs.FrameDChunk.
+From LZ4V Require Import Proofs.FrameDHeader Proofs.FrameDProofs Proofs.FrameDSound Proofs.FrameDBisim Proofs.FrameDChunk Proofs.FrameDHint.
 Import ListNotations.
 Local Open Scope Z_scope.
 
@@ -74,6 +74,7 @@ Qed.
 
 Section Bound.
 Variable bdec : list byte -> list byte -> option (list byte).
+Variable skip : bool.
 Variable dict : list byte.
 
 Lemma take_zlen' n (l a b : list byte) : take n l = Some (a, b) -> zlen l = Z.of_nat n + zlen b.
@@ -112,7 +113,7 @@ Proof.
 Qed.
 
 Theorem hint_state_bound : forall p O s g res,
-  CInv bdec false dict p O s -> wf s ->
+  CInv bdec skip dict p O s -> wf s ->
   frame_decode bdec false dict (p ++ g) = Some res -> bytes_ok g = true ->
   stop_hint s <= zlen g.
 Proof.
@@ -322,10 +323,11 @@ Qed.
 (* ---- one call at a CInv position of a valid frame ---- *)
 Section Call.
 Variable bdec : list byte -> list byte -> option (list byte).
+Variable skip : bool.
 Variable dict : list byte.
 
 Theorem call_hint_within_frame : forall s src cap o p O g res l' h,
-  o_skip o = false -> wf s -> BInv bdec false dict p O s -> bytes_ok src = true -> 0 <= cap ->
+  o_skip o = skip -> wf s -> BInv bdec skip dict p O s -> bytes_ok src = true -> 0 <= cap ->
   frame_decode bdec false dict (p ++ src ++ g) = Some res ->
   run bdec (call_fuel src) o (mkL (set_skip s (d_skip s || o_skip o)) src 0 [] cap) = (l', FStop h) ->
   0 < h -> bytes_ok g = true ->
@@ -333,7 +335,7 @@ Theorem call_hint_within_frame : forall s src cap o p O g res l' h,
   h <= zlen src + zlen g - l_used l'.
 Proof.
   intros s src cap o p O g res l' h Ho Hwf HB Hb Hc G HR Hh Hbg.
-  pose proof (call_chunk bdec false dict s src cap o p O Ho Hwf HB Hb Hc) as CC. cbv zeta in CC.
+  pose proof (call_chunk bdec skip dict s src cap o p O Ho Hwf HB Hb Hc) as CC. cbv zeta in CC.
   unfold decompress in *. rewrite HR in *. cbn [fst snd r_ret r_out r_consumed] in CC.
   split; [reflexivity|].
   destruct (CC ltac:(right; exists g, res; exact G)) as [_ CCp].
@@ -354,10 +356,29 @@ Proof.
   - rewrite Eh.
     assert (Hbrg : bytes_ok (rest ++ g) = true).
     { rewrite E1, bytes_ok_app in Hb. apply andb_prop in Hb. rewrite bytes_ok_app, (proj2 Hb), Hbg. reflexivity. }
-    pose proof (hint_state_bound bdec dict (p ++ x) _ (l_s l') (rest ++ g) res C Hwf' G' Hbrg) as B.
+    pose proof (hint_state_bound bdec skip dict (p ++ x) _ (l_s l') (rest ++ g) res C Hwf' G' Hbrg) as B.
     rewrite zlen_app in B. rewrite E1, zlen_app. lia.
   - (* still at the very start of the frame: the stage is GetFrameHeader, which never stops with a hint *)
     destruct AS as (St & _). rewrite Eh. unfold stop_hint. rewrite St. pose proof (zlen_nonneg g).
     pose proof (zlen_nonneg src). rewrite Eh in Hh. unfold stop_hint in Hh. rewrite St in Hh. lia.
 Qed.
 End Call.
+
+(* ---- the statement of Proofs/FrameDHint.v, on the repaired model ---- *)
+Theorem hint_within_frame : hint_within_frame_statement.
+Proof.
+  intros bdec frame content k cap o G Hb Hk Hc. cbv zeta. intros Hcons Hret.
+  set (src := ztake k frame) in *. set (g := zdrop k frame).
+  assert (Ef : frame = src ++ g) by (unfold src, g, ztake, zdrop; symmetry; apply firstn_skipn).
+  assert (Hbs : bytes_ok src = true /\ bytes_ok g = true).
+  { rewrite Ef, bytes_ok_app in Hb. apply andb_prop in Hb. exact Hb. }
+  assert (Lf : zlen frame = zlen src + zlen g) by (rewrite Ef at 1; apply zlen_app).
+  assert (HB : BInv bdec (o_skip o) [] [] [] dctx_init) by (right; repeat split; reflexivity).
+  assert (G0 : frame_decode bdec false [] ([] ++ src ++ g) = Some (content, [])) by (cbn [app]; rewrite <- Ef; exact G).
+  unfold decompress in *.
+  destruct (run bdec (call_fuel src) o (mkL (set_skip dctx_init (d_skip dctx_init || o_skip o)) src 0 [] cap)) as [l' f] eqn:HR.
+  destruct f as [h|v|]; cbn [snd r_consumed r_ret] in *; [|lia|lia].
+  destruct (call_hint_within_frame bdec (o_skip o) [] dctx_init src cap o [] [] g (content, []) l' h
+              eq_refl wf_init HB (proj1 Hbs) Hc G0 HR Hret (proj2 Hbs)) as [_ B].
+  lia.
+Qed.
